@@ -9,6 +9,9 @@
 //
 // Part "http" (c01_http_test.go): the same oracle on the HTTP surface of an
 // in-process origin server, including refreshes through the real blobrefresh.Refresher.
+//
+// Part "race" (c01_race_test.go): concurrent pollers read one digest while large matching and
+// mismatching writes to it are still running; whatever they manage to read must be its content.
 package c01
 
 import (
@@ -534,12 +537,14 @@ func TestProp(t *testing.T) {
 		Rule: "store: rapid draws 2-4 blobs (0-97 bytes quick, 0-385 thorough; slot 0 sometimes the empty blob), a memory write-through configuration (off / on with capacity 0, half a blob, one blob, all blobs, ample; 1-3 drain retries) and 1-14 ops over the slots' digests: writes through chunked upload+commit(+metainfo generation), CreateCacheFile, WriteCacheFile and the backend-refresh call WriteBlobToCacheWithMetaInfo (Stat size equal to or different from the stream, stream optionally failing), each sending the slot's bytes or a bit-flipped / truncated / extended / other-slot / empty variant, in WriteAt (any order) or Seek+Write chunks; drain steps, TTL expiry, delete, reopen. " +
 			"After EVERY op, after every final drain step and at quiescence, every name is read back: reader bytes must sha256 to the name, Stat size must equal the length of the name's content, TorrentMeta must name the digest and carry length and crc32 piece sums of the name's content, listed names must pass the same test; a write whose bytes do not hash to the name must return an error. " +
 			"http: the same oracle on an in-process origin blobserver (cluster upload, internal transfer and duplicate-upload routes, backend refresh through the real Refresher triggered by GET; reads through GET blob, GET metainfo and originstorage torrent piece readers). " +
-			"non-trivial = the case has a mismatching upload commit, or a mismatching refresh that could take the memory path and is observed before the next drain step; distinct by case hash",
+			"race: one large blob (64 KiB-4 MiB quick, up to 8 MiB thorough, content expanded from a drawn seed) and 1-4 writer ops on its digest (refresh / WriteCacheFile / upload+commit sending the same bytes or a same-length bit-flipped / same-length foreign / truncated / extended variant, backend Stat equal to the stream or to the true length; delete; drain) run while 1-2 poller goroutines per kind read GetCacheFileReader / GetCacheFileStat / GetCacheFileMetadata of that digest in a loop, optionally next to a concurrent drain worker; memory cache off or on with capacity nothing / one byte short / exact / ample. Every successful concurrent observation must be the content of the digest (bytes sha256 to the name, size, metainfo); polls that find nothing or fail are not judged; a mismatching write must return an error; the sequential oracle runs at quiescence. " +
+			"non-trivial = the case has a mismatching upload commit, or a mismatching refresh that could take the memory path and is observed before the next drain step, or (race) pollers completed observations while a mismatching write was running; distinct by case hash",
 		Assumptions: []string{
 			"sha256 (crypto/sha256) and crc32-IEEE (hash/crc32) are used directly by the oracle; two different slot contents never collide",
 			"drain and TTL steps of the memory cache are driven synchronously through the verif hook on a mock clock that never reaches the background tick interval",
 			"SkipHashVerification stays false (documented opt-out); only the store's write APIs are used to create content (no direct SetCacheFileMetadata with foreign metainfo)",
 			"the refresh path is exercised as the exact call Refresher.download makes (part store) and through the real Refresher (part http)",
+			"part race explores thread schedules by sampling (pollers spinning against multi-MiB writes), not exhaustively; its oracle judges only successful observations and therefore holds under every interleaving on code that verifies before publishing",
 		},
 		Parts: parts(),
 	})
